@@ -593,7 +593,9 @@ def run_fixed(case):
     return R, units
 
 
-def model_line(cfg, ops, fix=False):
+def model_line(cfg, ops, fix=None):
+    if fix is None:
+        fix = bool(os.environ.get("C06_MODEL_FIX"))   # experiment: compare a patched tree with the model of the candidate repair
     return "run " + M.cfg_token(cfg, fix) + " " + " ".join(M.op_token(o) for o in ops)
 
 
@@ -642,6 +644,8 @@ def check(ctx):
                 parts = out.split(" | ")
                 ghost = parts[-1] if parts and parts[-1].startswith("G[") else "G[?]"
                 states = parts[:-1]
+                if os.environ.get("C06_MODEL_FIX"):
+                    states = [x.replace("err:dirty", "err:connclosed") for x in states]
                 ok = ctx.compare(case, rstates, states, "ClientSession history vs Aio.C06.World.run")
                 if not ok:
                     for i, (a, b) in enumerate(zip(rstates, states)):
